@@ -622,18 +622,44 @@ package chain
 //@   requires [one-diff-per-id] oneDiffPerIDApply(cau)
 //@   ensures [writes-before-commit] !mayHaveCalled("Flush") || (calledBefore("applyState", "Flush") && (s.Index.Height > db.n.HardforkV2.RequireHeight || calledBefore("applyElements", "Flush")))
 //@   ensures [state-written] called("applyState")
+//@   ensures [index] best == old(best)[s.Index.Height := s.Index.ID] && sheight == s.Index.Height
 //@ func (*DBStore).RevertBlock props C03
 //@   requires db != nil && db.db != nil && db.n != nil
 //@   requires [one-diff-per-id] oneDiffPerIDRevert(cru)
 //@   ensures [writes-before-commit] !mayHaveCalled("Flush") || (calledBefore("revertState", "Flush") && (s.Index.Height > db.n.HardforkV2.RequireHeight || calledBefore("revertElements", "Flush")))
 //@   ensures [state-written] called("revertState")
+//@   requires [tip-parent] s.Index.Height < 18446744073709551615
+//@   ensures [index] best == remove(old(best), s.Index.Height + 1) && sheight == s.Index.Height
 // (assumed frames of the bucket-level writers: they change the write counter and the backend only)
-//@ func (*DBStore).applyState
-//@   assigns heap:DBStore
+// The best-chain index: putBestIndex / deleteBestIndex / putHeight are encoding wrappers around
+// one operation on the MainChain bucket each (assumed point updates of the abstract index `best`
+// and of the tip height `sheight` that the Store interface is specified with); applyState and
+// revertState are proved to move exactly one entry, which is what DBStore.ApplyBlock / RevertBlock
+// promise as implementations of Store.
+//@ func (*DBStore).putBestIndex
+//@   assigns heap:DBStore, ghost:best
 //@   ensures db.db == old(db.db) && db.n == old(db.n)
-//@ func (*DBStore).revertState
-//@   assigns heap:DBStore
+//@   ensures best == old(best)[index.Height := index.ID]
+//@ func (*DBStore).deleteBestIndex
+//@   assigns heap:DBStore, ghost:best
 //@   ensures db.db == old(db.db) && db.n == old(db.n)
+//@   ensures best == remove(old(best), height)
+//@ func (*DBStore).putHeight
+//@   assigns heap:DBStore, ghost:sheight
+//@   ensures db.db == old(db.db) && db.n == old(db.n)
+//@   ensures sheight == height
+//@ func (*DBStore).applyState props C03,C01
+//@   assigns heap:DBStore, ghost:best, ghost:sheight
+//@   frame assumed
+//@   requires db != nil
+//@   ensures db.db == old(db.db) && db.n == old(db.n)
+//@   ensures [index] best == old(best)[next.Index.Height := next.Index.ID] && sheight == next.Index.Height
+//@ func (*DBStore).revertState props C03,C01
+//@   assigns heap:DBStore, ghost:best, ghost:sheight
+//@   frame assumed
+//@   requires db != nil && prev.Index.Height < 18446744073709551615
+//@   ensures db.db == old(db.db) && db.n == old(db.n)
+//@   ensures [index] best == remove(old(best), prev.Index.Height + 1) && sheight == prev.Index.Height
 // (applyElements / revertElements: see C02 below)
 //@ func (*DBStore).shouldFlush
 //@   assigns nothing
